@@ -1365,16 +1365,31 @@ func (cs *clientStream) writeRequest(req *http.Request, streamf func(*clientStre
 		cc.idleTimer.Stop()
 	}
 	cc.decrStreamReservationsLocked()
-	if err := cc.awaitOpenSlotForStreamLocked(cs); err != nil {
+	for {
+		if err := cc.awaitOpenSlotForStreamLocked(cs); err != nil {
+			cc.mu.Unlock()
+			<-cc.reqHeaderMu
+			return err
+		}
+		// A slot is free. Take it with the write lock held (lock order: wmu
+		// before mu, as in processSettings) and keep the write lock until the
+		// HEADERS frame is written, so that no SETTINGS frame lowering
+		// MAX_CONCURRENT_STREAMS is applied and acknowledged in between.
 		cc.mu.Unlock()
-		<-cc.reqHeaderMu
-		return err
+		cc.wmu.Lock()
+		cc.mu.Lock()
+		if !cc.closed && cc.canTakeNewRequestLocked() && int64(len(cc.streams)) < int64(cc.maxConcurrentStreams) {
+			break
+		}
+		// The slot is gone again (or the connection became unusable): wait again.
+		cc.wmu.Unlock()
 	}
 	cc.addStreamLocked(cs) // assigns stream ID
 	if isConnectionCloseRequest(req) {
 		cc.doNotReuse = true
 	}
 	cc.mu.Unlock()
+	// cc.wmu is held from here until encodeAndWriteHeaders has returned.
 
 	if streamf != nil {
 		streamf(cs)
@@ -1399,6 +1414,7 @@ func (cs *clientStream) writeRequest(req *http.Request, streamf func(*clientStre
 	// the caller to "mutate or reuse" the Request after closing the Response's Body,
 	// we must take care when referencing the Request from here on.
 	err = cs.encodeAndWriteHeaders(req, dumps)
+	cc.wmu.Unlock()
 	<-cc.reqHeaderMu
 	if err != nil {
 		return err
@@ -1478,12 +1494,10 @@ func (cs *clientStream) writeRequest(req *http.Request, streamf func(*clientStre
 	}
 }
 
+// requires cc.wmu be held
 func (cs *clientStream) encodeAndWriteHeaders(req *http.Request, dumps []*dump.Dumper) error {
 	cc := cs.cc
 	ctx := cs.ctx
-
-	cc.wmu.Lock()
-	defer cc.wmu.Unlock()
 
 	// If the request was canceled while waiting for cc.mu, just quit.
 	select {
